@@ -37,7 +37,7 @@ pub fn directives(root: &SyntaxNode) -> Vec<Directive> {
             if tree::is_comment(c.kind()) && c.text().contains("@typstyle off") {
                 // next sibling skipping Space, Hash (and further comments do not count as targets)
                 let mut j = i + 1;
-                while j < kids.len() && matches!(kids[j].kind(), K::Space | K::Hash) {
+                while j < kids.len() && matches!(kids[j].kind(), K::Space | K::Parbreak | K::Hash) {
                     j += 1;
                 }
                 let target = kids.get(j).copied().filter(|t| !tree::is_comment(t.kind()));
@@ -133,7 +133,21 @@ pub fn check(x: &str, px: &SyntaxNode, cfg: Cfg, acc: &mut Acc) -> Result<Option
                 None
             }
         };
-        if ta != tb && unwrapped.as_deref() != Some(ta.trim()) {
+        // A directive followed by a blank line is a detached comment for the list printers and may be re-attached
+        // before the separator (`(1, /* off */⏎⏎2)` -> `(1 /* off */, 2)`): the directive then *precedes* something else in
+        // the output, but the statement only asks that the protected node's text appears character for character —
+        // which is looked for after the directive's position in the output.
+        let appears_after = || {
+            let mut pos = 0usize;
+            for d in dy.iter().take(k + 1) {
+                match y[pos..].find(d.comment.as_str()) {
+                    Some(p) => pos += p + d.comment.len(),
+                    None => return false,
+                }
+            }
+            !ta.trim().is_empty() && rtrim_lines(&y[pos..]).contains(ta.trim())
+        };
+        if ta != tb && unwrapped.as_deref() != Some(ta.trim()) && !appears_after() {
             return Ok(Some((
                 true,
                 Some(format!(
@@ -329,6 +343,53 @@ pub fn off_pool(bases: Arc<Vec<Base>>) -> MutPool {
                 return None;
             }
             // the injected directive must protect something in scope
+            if !directives(&root).iter().any(|d| d.in_scope) {
+                return None;
+            }
+            Some(m)
+        }),
+    }
+}
+
+// ------------------------------------------------------------------------------------------------
+// M-OFF3: the directive is separated from its node by more whitespace than one blank or one line break
+// ("directly followed, ignoring whitespace": blank lines, trailing blanks, tabs).
+
+pub const OFF3_VARIANTS: usize = 8;
+const OFF3: [&str; 8] = [
+    "/* @typstyle off */\n\n",
+    "// @typstyle off\n\n",
+    "/* @typstyle off */\n\n\n",
+    "// @typstyle off\n\n\n",
+    "/* @typstyle off */  \n  \n  ",
+    "// @typstyle off\n  \n  ",
+    "/* @typstyle off */\t",
+    "// @typstyle off\n\t",
+];
+
+pub fn off3_pool(bases: Arc<Vec<Base>>) -> MutPool {
+    let sites: Arc<Vec<Vec<mutate::NodeRef>>> = Arc::new(bases.iter().map(|b| off_sites(&b.root)).collect());
+    let index: std::collections::HashMap<String, usize> = bases.iter().enumerate().map(|(i, b)| (b.case.origin.clone(), i)).collect();
+    let mut prefix = vec![0usize];
+    for s in sites.iter() {
+        prefix.push(prefix.last().unwrap() + s.len() * OFF3_VARIANTS);
+    }
+    MutPool {
+        name: "M-OFF3".into(),
+        bases,
+        prefix,
+        f: Box::new(move |b, j| {
+            let bi = *index.get(&b.case.origin)?;
+            let site = sites[bi].get(j / OFF3_VARIANTS)?;
+            let v = j % OFF3_VARIANTS;
+            let text = &b.case.text;
+            let at = if site.hashed { site.start - 1 } else { site.start };
+            let payload = uglify(&text[site.start..site.end], 1);
+            let m = format!("{}{}{}{}{}", &text[..at], OFF3[v], &text[at..site.start], payload, &text[site.end..]);
+            let root = tree::parse_ok(&m)?;
+            if mutate::count_comments(&root) != mutate::count_comments(&b.root) + 1 {
+                return None;
+            }
             if !directives(&root).iter().any(|d| d.in_scope) {
                 return None;
             }
